@@ -299,7 +299,9 @@ func (dec *xmlDecoder) decodeXML(root *xmlNode) error {
 				log.Debug("chardata [%v] for %v", elem.n.Data, elem.label)
 			}
 		case xml.EndElement:
-			if elem == nil {
+			if elem == nil || elem.parent == nil {
+				// an end tag without a start tag: skip it and stay on the root element
+				// (moving to the parent of the root left elem nil for every later token)
 				log.Debug("no element, probably bad xml")
 				continue
 			}
